@@ -7,6 +7,7 @@ import (
 	"net"
 	"os"
 	"runtime"
+	"sort"
 	"strings"
 	"sync"
 	"testing"
@@ -499,7 +500,7 @@ func frGen(maxConns int, directOnly bool) func(rt *rapid.T) frScenario {
 			NumConn:    rapid.IntRange(0, 8).Draw(rt, "numconn"),
 			Browser:    rapid.SampledFrom([]string{"chrome", "firefox", "safari"}).Draw(rt, "browser"),
 			Transport:  "direct",
-			ServerName: rapid.SampledFrom([]string{"www.bing.com", "random", "a.example.org"}).Draw(rt, "sn"),
+			ServerName: rapid.SampledFrom([]string{"www.bing.com", "random", "a.example.org", "RANDOM", "rAnDoM"}).Draw(rt, "sn"),
 		}
 		if !directOnly && rapid.IntRange(0, 3).Draw(rt, "cdn") == 0 {
 			sc.Client.Transport = "cdn"
@@ -669,18 +670,23 @@ type c12Connect struct {
 	Fail []string
 }
 
-func TestVerif_C12_ConnectFault(t *testing.T) {
-	vk.Run(t, "C12", "ConnectFault", func(rt *rapid.T) c12Connect {
-		sc := c12Connect{Client: vClientCfg{
-			UID: vUIDb64(rapid.SliceOfN(rapid.Byte(), 16, 16).Draw(rt, "uid")), Method: "shadowsocks",
-			Enc: "plain", NumConn: rapid.IntRange(0, 4).Draw(rt, "numconn"), Browser: rapid.SampledFrom([]string{"chrome", "firefox", "safari"}).Draw(rt, "browser"),
-			Transport: rapid.SampledFrom([]string{"direct", "direct", "cdn"}).Draw(rt, "transport"), ServerName: "www.bing.com"}}
-		n := rapid.IntRange(1, 6).Draw(rt, "nfail")
-		for i := 0; i < n; i++ {
-			sc.Fail = append(sc.Fail, rapid.SampledFrom([]string{"", "reset", "reset", "reset-after-hello", "eof", "reply-fails", "reply-fails", "reply-fails-late", "slow", "reply-delayed"}).Draw(rt, "fail"))
-		}
-		return sc
-	}, func(sc c12Connect) (vk.Result, error) {
+func c12ConnectGen(rt *rapid.T) c12Connect {
+	sc := c12Connect{Client: vClientCfg{
+		UID: vUIDb64(rapid.SliceOfN(rapid.Byte(), 16, 16).Draw(rt, "uid")), Method: "shadowsocks",
+		Enc: "plain", NumConn: rapid.IntRange(0, 4).Draw(rt, "numconn"), Browser: rapid.SampledFrom([]string{"chrome", "firefox", "safari"}).Draw(rt, "browser"),
+		Transport: rapid.SampledFrom([]string{"direct", "direct", "cdn"}).Draw(rt, "transport"), ServerName: "www.bing.com"}}
+	n := rapid.IntRange(1, 6).Draw(rt, "nfail")
+	for i := 0; i < n; i++ {
+		sc.Fail = append(sc.Fail, rapid.SampledFrom([]string{"", "reset", "reset", "reset-after-hello", "eof", "reply-fails", "reply-fails", "reply-fails-late", "slow", "reply-delayed"}).Draw(rt, "fail"))
+	}
+	return sc
+}
+
+// c12ConnectRun runs a set-up fault scenario. The C12 sub-check judges the session; the C20 sub-check only whether
+// the configured browser signature stayed in effect on every attempt (sigOnly).
+func c12ConnectRun(t *testing.T, sigOnly bool) func(sc c12Connect) (vk.Result, error) {
+	return func(sc c12Connect) (vk.Result, error) {
+		checkSig := sigOnly
 		var res vk.Result
 		var verr error
 		berr := vk.Bubble(t, func() {
@@ -806,6 +812,35 @@ func TestVerif_C12_ConnectFault(t *testing.T) {
 						mayDie = true
 					}
 				}
+				// BrowserSig in effect on every attempt, failed and retried ones included: the ClientHello of each connection has
+				// the shape (cipher suites and extension types, GREASE ignored) of a fresh hello of the configured browser.
+				// Documented exception in the client: a failed attempt with the chrome signature is retried as firefox.
+				if checkSig && !strings.EqualFold(sc.Client.Transport, "cdn") {
+					want, werr := frFingerprintOf(srv.pub, sc.Client.Browser)
+					if werr != nil {
+						return res, fmt.Errorf("harness: %v", werr)
+					}
+					alt := want
+					if strings.EqualFold(sc.Client.Browser, "chrome") {
+						if alt, werr = frFingerprintOf(srv.pub, "firefox"); werr != nil {
+							return res, fmt.Errorf("harness: %v", werr)
+						}
+					}
+					for li, l := range cnet.All() {
+						wire := l.Wire(vk.AtoB)
+						recs, _ := vk.SplitTLSRecords(wire)
+						if len(recs) == 0 || len(recs[0].Body) == 0 {
+							continue
+						}
+						ch, perr := vk.ParseClientHelloHandshake(recs[0].Body)
+						if perr != nil {
+							continue // C10's subject
+						}
+						if fp := frFingerprint(ch); fp != want && fp != alt {
+							return res, vk.ViolateSig("browsersig-lost", "connection attempt #%d (BrowserSig=%s, after %d failed attempts) sent a ClientHello that does not have the shape of that browser's hello: %s, want %s", li, sc.Client.Browser, failed, fp, want)
+						}
+					}
+				}
 				// several streams: each picks one of the session's connections at random, and every one must work
 				nProbe := 6
 				if remote.Singleplex {
@@ -832,7 +867,20 @@ func TestVerif_C12_ConnectFault(t *testing.T) {
 							res.Labels = append(res.Labels, "session-torn-down-by-setup-fault")
 							return res, nil
 						}
-						return res, vk.ViolateSig("connect-fault-broken-session", "the session established after failed connection attempts looks alive (closed=%v) but probe stream %d does not carry data: read %q, %v", sesh.IsClosed(), k, buf[:n], err)
+						diag := ""
+						for _, l := range cnet.All() {
+							diag += fmt.Sprintf(" [client link %d: client end closed=%v, far end closed=%v, sent %d, received %d bytes]", l.ID, l.A.IsClosed(), l.B.IsClosed(), len(l.Wire(vk.AtoB)), len(l.Wire(vk.BtoA)))
+						}
+						srv.sta.Panel.activeUsersM.RLock()
+						for _, u := range srv.sta.Panel.activeUsers {
+							u.sessionsM.RLock()
+							for sid, ss := range u.sessions {
+								diag += fmt.Sprintf(" [server session %d closed=%v]", sid, ss.IsClosed())
+							}
+							u.sessionsM.RUnlock()
+						}
+						srv.sta.Panel.activeUsersM.RUnlock()
+						return res, vk.ViolateSig("connect-fault-broken-session", "the session established after failed connection attempts looks alive (closed=%v) but probe stream %d does not carry data: read %q, %v;%s", sesh.IsClosed(), k, buf[:n], err, diag)
 					}
 				}
 				res.NonTrivial = failed > 0
@@ -846,5 +894,75 @@ func TestVerif_C12_ConnectFault(t *testing.T) {
 			verr = vk.Violatef("goroutines left blocked or crashed: %v", strings.SplitN(berr.Error(), "\n", 2)[0])
 		}
 		return res, verr
+	}
+}
+
+func TestVerif_C12_ConnectFault(t *testing.T) {
+	vk.Run(t, "C12", "ConnectFault", c12ConnectGen, c12ConnectRun(t, false))
+}
+
+// C20: BrowserSig takes effect on every connection attempt, also on retries after failed ones.
+func TestVerif_C20_SigAfterRetry(t *testing.T) {
+	run := c12ConnectRun(t, true)
+	vk.Run(t, "C20", "SigAfterRetry", func(rt *rapid.T) c12Connect {
+		sc := c12ConnectGen(rt)
+		sc.Client.Transport = "direct"
+		return sc
+	}, func(sc c12Connect) (vk.Result, error) {
+		res, err := run(sc)
+		if v, ok := err.(*vk.Violation); ok && v.Sig == "browsersig-lost" {
+			return res, err
+		}
+		if err != nil && !isViolation(err) {
+			return res, err // harness error
+		}
+		return res, nil // anything else is C12's subject
 	})
+}
+
+func isViolation(err error) bool { _, ok := err.(*vk.Violation); return ok }
+
+// frFingerprint summarises the shape of a ClientHello: cipher suites in order and the set of extension types, GREASE
+// values ignored.
+func frFingerprint(ch *vk.RefClientHello) string {
+	grease := func(v uint16) bool { return v&0x0f0f == 0x0a0a && v>>8 == v&0xff }
+	var cs []string
+	for _, c := range ch.CipherSuites {
+		if !grease(c) {
+			cs = append(cs, fmt.Sprintf("%04x", c))
+		}
+	}
+	var ex []int
+	for _, e := range ch.Extensions {
+		if !grease(e.Type) {
+			ex = append(ex, int(e.Type))
+		}
+	}
+	sort.Ints(ex)
+	return fmt.Sprintf("suites=%s ext=%v", strings.Join(cs, ","), ex)
+}
+
+var frFingerprints sync.Map
+
+// frFingerprintOf captures a fresh first-attempt hello of the given signature (inside the current bubble).
+func frFingerprintOf(pub [32]byte, browser string) (string, error) {
+	k := strings.ToLower(browser)
+	if v, ok := frFingerprints.Load(k); ok {
+		return v.(string), nil
+	}
+	pkt, _, err := c08CaptureAt(pub, false, k, time.Now)
+	if err != nil {
+		return "", err
+	}
+	recs, _ := vk.SplitTLSRecords(pkt)
+	if len(recs) == 0 {
+		return "", fmt.Errorf("no record in reference hello")
+	}
+	ch, err := vk.ParseClientHelloHandshake(recs[0].Body)
+	if err != nil {
+		return "", err
+	}
+	fp := frFingerprint(ch)
+	frFingerprints.Store(k, fp)
+	return fp, nil
 }
